@@ -1138,3 +1138,89 @@ mod security_tests {
         assert_eq!(packet.payload, original_payload);
     }
 }
+
+// ---------------------------------------------------------------------------
+// Verification hooks (H4). Compiled only with `--cfg rustrtc_verif`.
+// Read-only projections of the per-SSRC receive/transmit state, a way to age
+// contexts without waiting (back-dating `last_used`), and clones for probing
+// "what would be accepted from this state" without disturbing the original.
+// ---------------------------------------------------------------------------
+#[cfg(rustrtc_verif)]
+impl SrtpContext {
+    /// `(rollover_counter, last_sequence, rtcp_index)`.
+    pub fn verif_state(&self) -> (u32, Option<u16>, u32) {
+        (self.rollover_counter, self.last_sequence, self.rtcp_index)
+    }
+}
+
+#[cfg(rustrtc_verif)]
+impl SrtpSession {
+    /// Receive-side `(roc, last_seq, rtcp_index)` for `ssrc`; `None` when no context exists.
+    pub fn verif_rx_state(&self, ssrc: u32) -> Option<(u32, Option<u16>, u32)> {
+        self.rx_contexts.get(&ssrc).map(|c| c.verif_state())
+    }
+
+    /// Transmit-side `(roc, last_seq, rtcp_index)` for `ssrc`.
+    pub fn verif_tx_state(&self, ssrc: u32) -> Option<(u32, Option<u16>, u32)> {
+        self.tx_contexts.get(&ssrc).map(|c| c.verif_state())
+    }
+
+    pub fn verif_rx_context_count(&self) -> usize {
+        self.rx_contexts.len()
+    }
+
+    pub fn verif_tx_context_count(&self) -> usize {
+        self.tx_contexts.len()
+    }
+
+    /// SSRCs that currently have a receive context (sorted).
+    pub fn verif_rx_ssrcs(&self) -> Vec<u32> {
+        let mut v: Vec<u32> = self.rx_contexts.keys().copied().collect();
+        v.sort_unstable();
+        v
+    }
+
+    /// Make the receive context of `ssrc` look `secs` seconds older. Returns
+    /// false when there is no such context or the clock cannot go back that far.
+    pub fn verif_backdate(&mut self, ssrc: u32, secs: u64) -> bool {
+        match self.rx_contexts.get_mut(&ssrc) {
+            Some(c) => match c.last_used.checked_sub(std::time::Duration::from_secs(secs)) {
+                Some(t) => {
+                    c.last_used = t;
+                    true
+                }
+                None => false,
+            },
+            None => false,
+        }
+    }
+
+    /// Age every receive context by `secs` seconds (a model `Tick`).
+    pub fn verif_backdate_all(&mut self, secs: u64) -> bool {
+        let d = std::time::Duration::from_secs(secs);
+        let mut ok = true;
+        for c in self.rx_contexts.values_mut() {
+            match c.last_used.checked_sub(d) {
+                Some(t) => c.last_used = t,
+                None => ok = false,
+            }
+        }
+        ok
+    }
+
+    /// Clone of the receive context of `ssrc` (probe target).
+    pub fn verif_rx_context_clone(&self, ssrc: u32) -> Option<SrtpContext> {
+        self.rx_contexts.get(&ssrc).cloned()
+    }
+
+    /// Deep copy of the whole session, context tables included (probe target).
+    pub fn verif_clone(&self) -> SrtpSession {
+        SrtpSession {
+            profile: self.profile,
+            tx_keying: self.tx_keying.clone(),
+            rx_keying: self.rx_keying.clone(),
+            tx_contexts: self.tx_contexts.clone(),
+            rx_contexts: self.rx_contexts.clone(),
+        }
+    }
+}
